@@ -10,6 +10,7 @@ import PrqlModel.Drv.Lex
 import PrqlModel.Drv.Take
 import PrqlModel.Drv.Json
 import PrqlModel.Drv.Projection
+import PrqlModel.Drv.Wildcards
 import PrqlModel.Drv.Clause
 import PrqlModel.Drv.Window
 import PrqlModel.Drv.Lit
@@ -28,6 +29,7 @@ def handlers : List (List String → Option String) := [
   Drv.Take.handle,
   Drv.Json.handle,
   Drv.Projection.handle,
+  Drv.Wildcards.handle,
   Drv.Clause.handle,
   Drv.Window.handle,
   Drv.Lit.handle,
